@@ -7,6 +7,7 @@ import (
 	"os"
 	"path/filepath"
 	"sort"
+	"strings"
 
 	"verif/harness/gfref"
 	"verif/harness/sandbox"
@@ -259,6 +260,13 @@ func makeScenario(rng *rand.Rand, idx int, thorough bool) *scenario {
 				"dot.%02d.", "UPPER%02d.DAT", "sub/deep/er/f%02d.bin", "%%41-%02d.txt", "semi;colon&%02d", "back\\sub\\f%02d", "a'b\"c%02d"}
 			name = fmt.Sprintf(odd[rng.Intn(len(odd))], i)
 		}
+		if (i+idx)%7 == 3 {
+			// protected files that merely LOOK like files of the set: they share the index file's stem or extension
+			bn := p2Bases[idx%len(p2Bases)]
+			if !strings.ContainsAny(bn, "%") {
+				name = []string{bn + "-2019.par2", bn + "2.par2", "x.par2", bn + "-old.PAR2", bn + ".par2.orig"}[rng.Intn(5)]
+			}
+		}
 		if i > 0 && (i+idx)%6 == 5 {
 			// a protected file whose name is another protected file's name plus a temporary-file / backup suffix
 			name = sc.names[i-1] + []string{".tmp", "~", ".bak", ".new", ".part"}[rng.Intn(5)]
@@ -446,6 +454,27 @@ func manyEqualScenario(rng *rand.Rand) *scenario {
 	return sc
 }
 
+// longNameScenario: a protected file whose name is 250 bytes long (the file system allows 255) and one in a
+// sub-directory with a 240-byte name; both are lost and must be restored.
+func longNameScenario(rng *rand.Rand) *scenario {
+	sc := &scenario{prot: map[string][]byte{}, s: 64, r: 12, g: 2, volLoss: "none"}
+	long1 := strings.Repeat("n", 246) + ".dat"
+	long2 := "d/" + strings.Repeat("m", 236) + ".bin"
+	sc.names = []string{"short.dat", long1, long2}
+	for i, n := range sc.names {
+		d := make([]byte, 100+60*i)
+		rng.Read(d)
+		sc.prot[n] = d
+	}
+	sc.desc = "file names of 250 and 240 bytes"
+	sc.damage = func(rng *rand.Rand, sc *scenario, disk map[string][]byte) []string {
+		disk[long1] = nil
+		disk[long2] = nil
+		return []string{"delete the two files with long names"}
+	}
+	return sc
+}
+
 func runP2Big(args []string) error {
 	c := newCommon("p2big")
 	count := c.fs.Int("n", 0, "number of scenarios (0 = tier default)")
@@ -478,6 +507,16 @@ func runP2Big(args []string) error {
 			sc = staleScenario(rng)
 		} else if idx == 18 {
 			sc = manyEqualScenario(rng)
+		} else if idx == 21 {
+			sc = siblingScenario(rng)
+			sc.desc += " (the other twins lost)"
+			sc.damage = func(rng *rand.Rand, sc *scenario, disk map[string][]byte) []string {
+				disk["REPORT.DOC"] = nil
+				disk["Sub/X"] = nil
+				return []string{"delete REPORT.DOC", "delete Sub/X"}
+			}
+		} else if idx == 24 {
+			sc = longNameScenario(rng)
 		} else {
 			sc = makeScenario(rng, idx, thorough)
 		}
